@@ -1,3 +1,5 @@
+#![feature(allocator_api)]
+#![allow(unused)]
 // U1 prelude: byte-stream models (verified), wire-format spec functions written from the
 // Minecraft protocol description, lemmas, and contracts for the external crates the codec calls.
 use vstd::prelude::*;
